@@ -17,10 +17,17 @@ def now():
     return CLOCK[0]
 
 
+NONCE = [0]      # answer of random.getrandbits(): set per node incarnation by the cluster engine (number of kills so far)
+
+
 class FakeRandom(object):
     @staticmethod
     def random():
         return RAND[0]
+
+    @staticmethod
+    def getrandbits(k):
+        return NONCE[0] % (1 << k)
 
     @staticmethod
     def choice(seq):
